@@ -6,7 +6,8 @@ python3 - "$F" "$PAT" "$REP" <<'PY'
 import re,sys
 f,pat,rep=sys.argv[1:4]
 s=open(f).read()
-n,c=re.subn(pat,rep,s,count=1,flags=re.S)
+rep=rep.replace('\\n','\n')
+n,c=re.subn(pat,lambda m: rep,s,count=1,flags=re.S)
 if c!=1: print('MUTATION DID NOT APPLY'); sys.exit(3)
 open(f,'w').write(n)
 PY
